@@ -133,6 +133,7 @@ structure D where
   reported : Nat := 0     -- effects of the incomplete head message already printed
   view : State            -- flags as of now (inside an incomplete message)
   needAlt : Option (List Nat) := none  -- alternate handler still running inside an incomplete message
+  cancelHung : Bool := false           -- a CancelBlockRequest is blocked on the streaming block's reader
   altReported : Bool := false          -- the alternate handler of the incomplete head message was already printed
   mode : Mode := .open_
   ran : Bool := true      -- Run has (or would have) returned after a close
@@ -220,6 +221,31 @@ def countRx (fx : List Effect) : Nat := (fx.filter fun | .addTx _ => true | _ =>
 def hasPong (fx : List Effect) (n : Nat) : Bool := fx.any fun | .send "pong" m => m == n | _ => false
 
 /-- common tail of every sending op: the barrier ping, then the observation. -/
+def showBh (r : BlockRec) : String :=
+  if !r.called then "idle"
+  else
+    let dn := match r.done with | none => "run" | some true => "ok" | some false => "err"
+    s!"c{r.count}g{r.got}d{dn}"
+
+/-- the end of Run as the harness reports it: onStop invocations, IsStopped, a blocked cancel's answer. -/
+def endTail (d : D) : D × String :=
+  let (s', _) := connectionEnd d.view
+  let c := if d.cancelHung then " cancel=1" else ""
+  ({ d with view := s', base := s', cancelHung := false }, s!" onstop={s'.onStopCalls} stopped=1{c} bh={showBh s'.bh}")
+
+/-- an op sent WITHOUT barrier ping (pieces of a message): the node ends up waiting for input. -/
+def partOp (d : D) (bytes : Bytes) : D × String :=
+  if d.mode == .wedged then (d, s!"sync=none tx=[] fx=[] hh=[] rx=0 st={showFlags d}")
+  else if d.mode != .open_ then (d, "dead")
+  else
+    let (d1, a) := feed d bytes
+    match d1.mode with
+    | .crashed => (d1, "sync=crash")
+    | .closed =>
+      let (d2, tail) := endTail d1
+      (d2, s!"sync=closed run=returned tx=* fx={showFx a.fx} hh={showAlts a.alts} rx={countRx a.fx} st={showFlags d2}{tail}")
+    | _ => (d1, s!"sync=quiet tx={showSent a.fx none} fx={showFx a.fx} hh={showAlts a.alts} rx={countRx a.fx} st={showFlags d1}")
+
 def sendOp (d : D) (bytes : Bytes) (own : Option Nat) : D × String :=
   let key := if own.isSome then "pong" else "sync"
   if d.mode == .wedged then (d, s!"{key}=none tx=[] fx=[] hh=[] rx=0 st={showFlags d}")
@@ -230,7 +256,9 @@ def sendOp (d : D) (bytes : Bytes) (own : Option Nat) : D × String :=
     let body := s!"tx={showSent a.fx (some nonce)} fx={showFx a.fx} hh={showAlts a.alts} rx={countRx a.fx} st={showFlags d1}"
     match d1.mode with
     | .crashed => (d1, s!"{key}=crash")
-    | .closed => (d1, s!"{key}=closed run=returned tx=* fx={showFx a.fx} hh={showAlts a.alts} rx={countRx a.fx} st={showFlags d1}")
+    | .closed =>
+      let (d2, tail) := endTail d1
+      (d2, s!"{key}=closed run=returned tx=* fx={showFx a.fx} hh={showAlts a.alts} rx={countRx a.fx} st={showFlags d2}{tail}")
     | _ =>
       if hasPong a.fx nonce then (d1, s!"{key}={if own.isSome then toString nonce else "ok"} {body}")
       else (d1, s!"{key}=none {body}")
@@ -250,15 +278,15 @@ def stepLine (d : D) (line : String) : D × String :=
     ({ env := mkEnv ((kvNat rest "mem").getD (2 ^ 31)), base := s0, view := s0, opIdx := 0 }, "tx=[version]")
   | "msg" :: rest =>
     match classicFrame rest with
-    | some b => sendOp d b none
+    | some b => if (kvNat rest "nob").getD 0 == 1 then partOp d b else sendOp d b none
     | none => (d, "bad-op")
   | "ext" :: rest =>
     match extFrame rest with
-    | some b => sendOp d b none
+    | some b => if (kvNat rest "nob").getD 0 == 1 then partOp d b else sendOp d b none
     | none => (d, "bad-op")
   | "raw" :: rest =>
     match (kv rest "hex").bind hexToBytes with
-    | some b => sendOp d b none
+    | some b => if (kvNat rest "nob").getD 0 == 1 then partOp d b else sendOp d b none
     | none => (d, "bad-op")
   | "pong" :: rest =>
     match kvNat rest "d" with
@@ -283,21 +311,47 @@ def stepLine (d : D) (line : String) : D × String :=
     match (kv rest "hdr").bind hexToBytes with
     | some h =>
       if d.mode != .open_ && d.mode != .wedged then (d, "dead")
+      else if d.cancelHung then (d, "req=locked")
       else if !d.view.ready then (d, "req=notready")
-      else if d.base.blockReq.isSome then (d, "req=busy")
       else
-        let (s', _) := requestBlock d.base (sha256d h)
-        ({ d with base := s', view := s' }, "req=ok")
+        match requestBlock? d.base (sha256d h) with
+        | none => (d, "req=busy")
+        | some (s', _) => ({ d with base := s', view := s' }, "req=ok")
     | none => (d, "bad-op")
+  | "reqheaders" :: _ =>
+    -- BitcoinNode.RequestHeaders: refused while a block request is outstanding
+    if d.mode != .open_ && d.mode != .wedged then (d, "dead")
+    else if d.cancelHung then (d, "req=locked")
+    else if d.base.busy then (d, "req=busy")
+    else (d, "req=ok")
+  | "cancelblock" :: rest =>
+    match (kv rest "hdr").bind hexToBytes with
+    | some h =>
+      if d.mode != .open_ && d.mode != .wedged then (d, "dead")
+      else if d.cancelHung then (d, "started=locked")
+      else if d.view.blockReader && d.view.blockReq == some (sha256d h) then
+        -- the streaming handleBlock is blocked in ReadCloser.Read holding its mutex: Close() waits
+        ({ d with cancelHung := true }, "started=hung")
+      else
+        let (s', r) := cancelBlock d.base (sha256d h)
+        let v := (cancelBlock d.view (sha256d h)).1
+        ({ d with base := s', view := v }, s!"started={b2s r}")
+    | none => (d, "bad-op")
+  | "blockstate" :: _ =>
+    if d.mode == .crashed then (d, "dead")
+    else
+      let busy := if d.cancelHung && d.mode == .open_ then "?" else b2s d.view.busy
+      (d, s!"bh={showBh d.view.bh} onstop={d.view.onStopCalls} busy={busy}")
   | "close" :: _ =>
     match d.mode with
     | .crashed => (d, "dead")
     | .wedged => (d, s!"run=hung hh=[] st={showFlags d}")
-    | .closed => (d, s!"run=returned hh=[] st={showFlags d}")
+    | .closed => (d, s!"run=returned hh=[] st={showFlags d} onstop={d.view.onStopCalls} stopped=1 bh={showBh d.view.bh}")
     | .open_ =>
       let alts := match d.needAlt with | some l => [l] | none => []
-      let d' := { d with mode := .closed, needAlt := none }
-      (d', s!"run=returned hh={showAlts alts} st={showFlags d'}")
+      let d1 := { d with mode := .closed, needAlt := none }
+      let (d2, tail) := endTail d1
+      (d2, s!"run=returned hh={showAlts alts} st={showFlags d2}{tail}")
   | _ => (d, "bad-op")
 
 def main : IO Unit := do
